@@ -1,6 +1,7 @@
 open BinNums
 open BinPosDef
 open Datatypes
+open Nat
 
 module Pos :
  sig
@@ -11,6 +12,8 @@ module Pos :
   val add_carry : positive -> positive -> positive
 
   val pred_double : positive -> positive
+
+  val pred_N : positive -> coq_N
 
   type mask = Pos.mask =
   | IsNul
@@ -29,9 +32,29 @@ module Pos :
 
   val mul : positive -> positive -> positive
 
+  val iter : ('a1 -> 'a1) -> 'a1 -> positive -> 'a1
+
   val compare_cont : comparison -> positive -> positive -> comparison
 
   val compare : positive -> positive -> comparison
 
   val eqb : positive -> positive -> bool
+
+  val coq_Nsucc_double : coq_N -> coq_N
+
+  val coq_Ndouble : coq_N -> coq_N
+
+  val coq_lor : positive -> positive -> positive
+
+  val coq_land : positive -> positive -> coq_N
+
+  val ldiff : positive -> positive -> coq_N
+
+  val coq_lxor : positive -> positive -> coq_N
+
+  val iter_op : ('a1 -> 'a1 -> 'a1) -> positive -> 'a1 -> 'a1
+
+  val to_nat : positive -> nat
+
+  val of_succ_nat : nat -> positive
  end
